@@ -123,7 +123,11 @@ func (g *gen) genFuncFor(ftyp *types.Signature) error {
 	p.In()
 	p.P("return %s {", gStr)
 	p.In()
-	p.P("return f(%s)(%s)", strings.Join(firstStr, ", "), strings.Join(secondStr, ", "))
+	if gtyp.Results().Len() == 0 {
+		p.P("f(%s)(%s)", strings.Join(firstStr, ", "), strings.Join(secondStr, ", "))
+	} else {
+		p.P("return f(%s)(%s)", strings.Join(firstStr, ", "), strings.Join(secondStr, ", "))
+	}
 	p.Out()
 	p.P("}")
 	p.Out()
